@@ -616,12 +616,14 @@ func judgeC42(c c42Case, tr string, l *c42Listener, conns []*c42ConnRec, modes [
 	if tr == "unix" {
 		if l.modeErr != "" {
 			out.Violate("C42/unix-socket-missing-at-bound", "stat of the socket inside onBound failed: %s", l.modeErr)
-		} else if l.modeAtBound.Perm() != 0o600 || l.modeAtBound&os.ModeSocket == 0 {
-			out.Violate("C42/unix-socket-mode", "socket mode when bound is %v, want a socket with 0600", l.modeAtBound)
+		} else if l.modeAtBound.Perm()&0o077 != 0 || l.modeAtBound&os.ModeSocket == 0 {
+			out.Violate("C42/unix-socket-mode", "socket mode when bound is %v, want an owner-only socket (no group/other bits)", l.modeAtBound)
 		}
 		for _, m := range modes {
-			if !strings.HasSuffix(m, ":0600:true") {
-				out.Violate("C42/unix-socket-mode", "socket mode observed while a connection was open: %s, want 0600", m)
+			// "name:perm(octal):isSocket": owner-only means the last two octal digits are 0
+			parts := strings.Split(m, ":")
+			if len(parts) < 3 || !strings.HasSuffix(parts[len(parts)-2], "00") || parts[len(parts)-1] != "true" {
+				out.Violate("C42/unix-socket-mode", "socket mode observed while a connection was open: %s, want an owner-only socket", m)
 				break
 			}
 		}
@@ -710,7 +712,7 @@ var propC42 = lib.Prop[c42Case]{
 	Rule: "connection schedules against real RunUnix / RunTcp listeners (idle time-out 100-400 ms): the serve-start hook failing its first 0-2 invocations (one sacrificial connection each, closed unserved, before the first wave), a holder connection plus 0-5 overlapping first-wave connections with 1-4 scripted u_str calls each (values, errors and logs tagged with the connection), " +
 		"the holder then idle for more than 2x the time-out while 1-2 probe connections are dialled and served, a second wave 0..timeout/4 after the holder closes, then everything closed. " +
 		"Oracle: each connection reads exactly its own modelled responses; the interval in which the listener can have stopped accepting (latest served dial .. earliest refused dial / return) must contain an instant with no verifiably open connection in the preceding time-out; " +
-		"no call is served after the function returned; the function returns after the last close (15 s bound); Unix socket mode 0600 while serving, path gone after return. Non-trivial: overlapping connections and a connection held idle > 2x the time-out.",
+		"no call is served after the function returned; the function returns after the last close (15 s bound); Unix socket owner-only (no group/other permission bits) while serving, path gone after return. Non-trivial: overlapping connections and a connection held idle > 2x the time-out.",
 	Gen:          genC42,
 	Run:          runC42,
 	Essential:    []string{"overlap:unix", "overlap:tcp", "held-idle-2x:unix", "held-idle-2x:tcp", "probe-served:unix", "probe-served:tcp", "hook-refused-then-overlap-idle-wait"},
